@@ -50,7 +50,7 @@ def is_string_cls(cls):
     return cls.startswith('std::basic_string<') or cls.startswith('std::__cxx11::basic_string<')
 
 
-def _size_like(f, e, depth=0, prog=None):
+def _size_like(f, e, depth=0, prog=None, assume=frozenset()):
     """the expression is built from constants and sizes of existing objects (x.size(), x.length(), x.capacity(), sizeof) with + - * / only, or is a
     local/parameter holding such a value (parameters named like a size of data already received are accepted: data_size, len, size)"""
     if e is None or depth > 8:
@@ -62,37 +62,39 @@ def _size_like(f, e, depth=0, prog=None):
         return True
     k = st['k']
     if k in ('ParenExpr', 'ExprWithCleanups', 'MaterializeTemporaryExpr', 'CXXBindTemporaryExpr'):
-        return _size_like(f, st['ch'][0], depth + 1, prog)
+        return _size_like(f, st['ch'][0], depth + 1, prog, assume)
     if k in q.CALL_KINDS and st.get('fn') in ('size', 'length', 'capacity') and not st.get('args'):
         return True
     if k in q.CALL_KINDS and (st.get('callee') or '').startswith(('std::min', 'std::max')):
-        return any(_size_like(f, a, depth + 1, prog) for a in st.get('args', [])) if (st.get('callee') or '').startswith('std::min') else \
-            all(_size_like(f, a, depth + 1, prog) for a in st.get('args', []))
+        return any(_size_like(f, a, depth + 1, prog, assume) for a in st.get('args', [])) if (st.get('callee') or '').startswith('std::min') else \
+            all(_size_like(f, a, depth + 1, prog, assume) for a in st.get('args', []))
     if k == 'BinaryOperator' and st.get('op') in ('+', '-', '*', '/', '%', '>>'):
-        return _size_like(f, st['ch'][0], depth + 1, prog) and _size_like(f, st['ch'][1], depth + 1, prog)
+        return _size_like(f, st['ch'][0], depth + 1, prog, assume) and _size_like(f, st['ch'][1], depth + 1, prog, assume)
     if k == 'UnaryExprOrTypeTraitExpr':
         return True
     if k == 'DeclRefExpr' and st.get('dk') == 'ParmVar':
         # the length of a buffer the caller already holds
         return 'size' in (st.get('n') or '') or 'len' in (st.get('n') or '')
-    if k == 'MemberExpr' and st.get('mk') == 'field' and prog is not None and f.cls and depth < 4:
+    if k == 'MemberExpr' and st.get('mk') == 'field' and prog is not None and (f.cls or prog.outermost(f).cls) and depth < 6:
         # a cursor/length field of the object: every assignment in its class gives it a constant, a size-like value, or advances it by one
         base = f.s(f.strip_casts(st['ch'][0])) if st.get('ch') else None
         if base is None or base['k'] == 'CXXThisExpr':
             fq = st.get('q') or ''
+            if fq in assume:
+                return True         # induction: the field is size-like if every assignment keeps it so, given that it is
             seen = False
             for g in prog.methods_of(prog.outermost(f).cls or f.cls):
                 for a, rhs in q.assigns(g, fq.split('::')[-2] + '::' + fq.split('::')[-1] if fq.count('::') else fq):
                     seen = True
                     if a['k'] == 'CompoundAssignOperator' and a.get('op') not in ('+=', '-='):
                         return False
-                    if not _size_like(g, rhs, depth + 2, prog):
+                    if not _size_like(g, rhs, depth + 1, prog, assume | {fq}):
                         return False
             return seen
     if k == 'DeclRefExpr' and st.get('dk') == 'Var' and not st.get('gl'):
         from . import rd
         defs = rd.local_defs(f, st['d'])
-        return bool(defs) and all(d['kind'] in ('init', '=', '+=', '++') and (d['rhs'] is None or _size_like(f, d['rhs'], depth + 1, prog)) for d in defs)
+        return bool(defs) and all(d['kind'] in ('init', '=', '+=', '++') and (d['rhs'] is None or _size_like(f, d['rhs'], depth + 1, prog, assume)) for d in defs)
     return False
 
 
